@@ -519,13 +519,16 @@ def random_tree(rng: random.Random, node_cls, depth: int):
             s = rng.randint(pos, len(pval))
             e = rng.randint(s, len(pval))
             v = pval[s:e] if rng.random() < 0.35 else val()
+            s0 = s
+            if rng.random() < 0.04:       # spans no scan should produce, but a tree may hold: end before start, negative start
+                s, e = rng.choice([(e + 1, s), (-rng.randint(1, 9), e), (s, -1)])
             c = node_cls(rng.choice(LABELS), v, rng.choice(LABELS[:4] + ["obf.é"]), s, e)
             sub = mk(v, d - 1 if d < 10 else d - 1)
             c.children = sub
             for k in sub:
                 k.parent = c
             kids.append(c)
-            pos = s
+            pos = s0
         return kids
 
     root = node_cls(rng.choice(["", "", "root"]), val() + b"abc", rng.choice(["", "", "o"]), 0, 0)
